@@ -110,6 +110,9 @@ def drive_hop(kind, c, rng):
         tr.delP[:, c["state"], c["state"]] = shift + np.array(c["dir"])
         c = dict(c); c["dir"] = np.real(tr.delP[:, c["state"], c["state"]] - tr.delP[:, c["target"], c["target"]]).tolist()   # as rounded by the subtraction
     x_before = tr.position.copy()
+    mom_before = (tr.delR.copy(), tr.delP.copy()) if kind == "afssh" else None
+    if kind == "afssh" and c["kind"] not in ("exact-tie", "orthogonal-down"):
+        tr.delR = tr.delR + np.array([[[complex(rng.gauss(0, 1), 0.0) if i == j else 0.0 for j in range(nst)] for i in range(nst)] for _ in range(ndim)]); mom_before = (tr.delR.copy(), tr.delP.copy())
     ke0 = float(tr.kinetic_energy())
     if kind == "es-child":
         from mudslide.cumulative_sh import TrajectoryCum
@@ -128,7 +131,8 @@ def drive_hop(kind, c, rng):
     fr = list(obs_tr.tracer.events.get("frustrated_hop", []))
     return c, dict(state=int(obs_tr.state), v=obs_tr.velocity.tolist(), accepted=accepted, x_same=bool(np.array_equal(obs_tr.position, x_before)),
                    rho_same=bool(np.array_equal(obs_tr.rho, rho_before)), ke0=ke0, ke1=float(obs_tr.kinetic_energy()),
-                   nhop=len(hops), nfr=len(fr), hops=hops, fr=fr, parent_unchanged=parent_unchanged, time=float(tr.time))
+                   nhop=len(hops), nfr=len(fr), hops=hops, fr=fr, parent_unchanged=parent_unchanged, time=float(tr.time),
+                   moments_same=(True if mom_before is None else bool(np.array_equal(obs_tr.delR, mom_before[0]) and np.array_equal(obs_tr.delP, mom_before[1]))))
 
 
 def hop_oracle(c, o):
@@ -168,6 +172,8 @@ def hop_oracle(c, o):
     else:
         if o["state"] != c["state"] or not np.array_equal(v1, v0):
             return "rejected hop leaves state and momentum untouched"
+        if not o.get("moments_same", True):
+            return "rejected hop leaves the A-FSSH moments untouched (they are re-centred only by an accepted hop)"
         if o["nhop"] != 0 or o["nfr"] != 1:
             return "exactly one frustrated_hop event for a rejected hop"
         f = o["fr"][0]
